@@ -12,7 +12,7 @@ func init() {
 		Level: "exploration",
 		Rule: "cases = generated (logger name, message, severity, caller flag, 0-24 attributes with unique hostile keys and values of every supported kind, groups nested <= 4) " +
 			"from PCG(seed, property, index); each record is captured at a recording writer and decoded by an independent strict JSON walker; " +
-			"Round 12: 7% of the records go through Infof / Warnf / Errorf (with and without operands, percent signs escaped); a quarter of the caller-flag records have no frame behind them (WriteThru with pc 0, a skip count of 1000: an empty or absent caller member, valid JSON all the same). Round 13: three registered titles with capital letters (the expected name is the title that was passed); a severity gated like Always with blank messages; one group object under two parent groups of a record. Round 14: empty and nil lists of instants / durations; more strings that hold NEL (U+0085). non-trivial = record decoded and matched AND (has attributes or a non-plain message); distinct = by payload bytes",
+			"Round 12: 7% of the records go through Infof / Warnf / Errorf (with and without operands, percent signs escaped); a quarter of the caller-flag records have no frame behind them (WriteThru with pc 0, a skip count of 1000: an empty or absent caller member, valid JSON all the same). Round 13: three registered titles with capital letters (the expected name is the title that was passed); a severity gated like Always with blank messages; one group object under two parent groups of a record. Round 14: empty and nil lists of instants / durations; more strings that hold NEL (U+0085). Round 15: half of the handler records go through a handler that opened a group before its WithAttrs steps. non-trivial = record decoded and matched AND (has attributes or a non-plain message); distinct = by payload bytes",
 		Assumptions: []string{"encoding/json's scanner and decoder (go1.23.5) as the reference for RFC 8259 validity", "user marshallers / value stringers are outside the domain"},
 		Floors:      map[string]int64{"records_decoded": 100, "records_through_the_printf_style_entry_points": 100, "records_without_a_frame_with_the_caller_flag_on": 100},
 		Jobs: func(tier string, seed int64) []Job {
@@ -33,7 +33,7 @@ func init() {
 		Level: "exploration",
 		Rule: "cases = generated logfmt records (production process mode): logger name, any-bytes message, severity, caller flag, 0-24 attributes with legal unique logfmt keys " +
 			"(random leading letter so that groups sort first/middle/last) and values of every supported kind incl. []byte, groups nested <= 3; each payload is tokenised by an independent " +
-			"logfmt tokenizer (strconv.Unquote for quoted values) and every pair compared with what was logged; Round 13: lines (the empty one included) through a std log bridge on a logfmt logger. Round 14: Warnf without operands and two escaped percent signs. non-trivial = decoded and matched AND (has attributes or non-plain message); distinct = by payload bytes. " +
+			"logfmt tokenizer (strconv.Unquote for quoted values) and every pair compared with what was logged; Round 13: lines (the empty one included) through a std log bridge on a logfmt logger. Round 14: Warnf without operands and two escaped percent signs. Round 15: instants RFC 3339 cannot carry (five-digit year, year before 0, a zone 25 h wide), at the top level and in a group. non-trivial = decoded and matched AND (has attributes or non-plain message); distinct = by payload bytes. " +
 			"Sub-workload handler: logfmt records through the library's log/slog handler, derived in 0-15+ WithGroup/WithAttrs steps, the record through the first of 2-4 siblings; expected tree by log/slog's rules. " +
 			"Follow-ups in main: parent and child binding one key; one group object used twice in a record",
 		Assumptions: []string{"strconv.Unquote (go1.23.5) decodes what a logfmt reader decodes", "production process mode (the multi-line error dump of testing mode is outside the statement)"},
@@ -82,7 +82,7 @@ func init() {
 		Level: "exploration",
 		Rule: "cases = generated logger chains of depth 1-4 (own-attribute lists of 0-20 incl. empty ones at every position, set through SetAttrs/SetAttrs1/Set), 0-5 registered context keys (string and Stringer, present/absent, nil context), " +
 			"0-64 call arguments (Attr objects and key,value pairs) over a small key space so that keys collide, groups with colliding members, inherit flag on/off, all three formats; every value carries its source tag; " +
-			"the decoded ordered (dotted key, value) list must equal the reference merge (last occurrence wins, ascending order at every level). Round 12: two cases in five with context keys run under a cancelled / expired context that still holds its values; in 20% of the cases the process's default logger (no ancestor of the chain) holds attributes of its own. Round 13: context keys whose printed name is empty (JSON); records through Log(ctx, log/slog level, ...). Round 14: half of the calls without arguments go through Infof (no context of its own); the empty key as the key of a plain pair. non-trivial = decoded, matched and at least one attribute; distinct = by the source lists",
+			"the decoded ordered (dotted key, value) list must equal the reference merge (last occurrence wins, ascending order at every level). Round 12: two cases in five with context keys run under a cancelled / expired context that still holds its values; in 20% of the cases the process's default logger (no ancestor of the chain) holds attributes of its own. Round 13: context keys whose printed name is empty (JSON); records through Log(ctx, log/slog level, ...). Round 14: half of the calls without arguments go through Infof (no context of its own); the empty key as the key of a plain pair. Round 15: loggers made with the empty name and positional attributes in the same New call. non-trivial = decoded, matched and at least one attribute; distinct = by the source lists",
 		Assumptions: []string{"the decoders of C04/C05/C06 (independent JSON walker, logfmt tokenizer, SGR stripper)"},
 		Floors:      map[string]int64{"records_decoded": 100, "records_with_13plus_attrs": 20, "inheriting_child_without_own_attrs": 5},
 		Jobs: func(tier string, seed int64) []Job {
@@ -119,7 +119,7 @@ func init() {
 		Level: "exploration",
 		Rule: "a reference model of the writer configuration (normal list, error list, per-level lists, package defaults for a logger never given writers) is advanced with each operation sequence; the sequence is applied to a fresh root and to a child of a configured parent, as methods and (when every operation has one) as New(...) options; " +
 			"then - for the method form after EVERY operation, so that records emitted between reconfigurations are part of the history - one probe record with a unique id is issued at each of 20 severities (built-ins; custom levels with the error device - also with values 64, 1000 and -5 and one that is gated like Info -, without it, gated like Error but without the error device, unregistered) through LogAttrs, 5 more through verbs and Print/Println and 4 blank-line forms and the per-writer Write counts (recording writers of 6 shapes, fds 1/2 redirected onto files) must equal the selected list; LevelSettable destinations must have been told the severity before each Write. " +
-			"exh: ALL sequences up to the length bound over a reduced alphabet (40 operations over 4 writers incl. a real *os.File); rand: random sequences of 3-10 operations over the full alphabet (8 writers of 7 shapes, 8 levels, plus children derived with WithWriter / WithErrorWriter and reconfigured, which must leave the receiver alone). A failing sequence is shrunk by dropping operations. Round 13: probes that carry an error with a stack trace (and a go-test job, where its details follow the record); two pool members are size-capped sinks in every other sequence (40 bytes per Write, no error); after every sequence another logger that was reset to the package defaults has what its getters hand out closed, and a never-configured logger is probed. non-trivial = every judged (logger kind, form, sequence); distinct = by that triple",
+			"exh: ALL sequences up to the length bound over a reduced alphabet (40 operations over 4 writers incl. a real *os.File); rand: random sequences of 3-10 operations over the full alphabet (8 writers of 7 shapes, 8 levels, plus children derived with WithWriter / WithErrorWriter and reconfigured, which must leave the receiver alone). A failing sequence is shrunk by dropping operations. Round 13: probes that carry an error with a stack trace (and a go-test job, where its details follow the record); two pool members are size-capped sinks in every other sequence (40 bytes per Write, no error); after every sequence another logger that was reset to the package defaults has what its getters hand out closed, and a never-configured logger is probed. Round 15: after every sequence a logger whose normal destination issues an Error record through it from inside its Write. non-trivial = every judged (logger kind, form, sequence); distinct = by that triple",
 		Assumptions: []string{"a removal that meets several copies of the writer may leave k-1 or 0 copies", "the package-level default writer itself is not reconfigured"},
 		Floors:      map[string]int64{"probes": 5000, "write_events": 3000, "fallback_bytes": 1000, "levelsettable_writes": 100},
 		Exhaustive:  func(string) bool { return true },
@@ -140,7 +140,7 @@ func init() {
 		Rule: "cases = (format, flag subset, logger level, 1-3 destinations per class + optional per-level writer + decoys, root or child, entry point among 25 verbs / Context verbs / LogAttrs / Logit / package functions / six Println forms / blank Print, " +
 			"free-form argument list of 0-2000 items: key/value pairs of every kind, typed nils, non-string keys, dangling keys, reserved and empty keys, Attr, Attrs, []Attr with nil members, user-defined Attr, groups nested to depth 13, empty groups; message of any bytes up to ~200 kB). " +
 			"Oracle: escaping panic = violation; per-writer Write counts == the selected destinations iff admitted, else zero everywhere; every payload is one whole record (newline-terminated, carries the call id exactly once, JSON valid / logfmt starts time= on one line / colored starts with the timestamp colour); blank Print/Println == exactly one newline byte. " +
-			"Round 13: lines through a std log bridge on the logger (the empty line included); 12% of the calls run while the process-wide debug mode is on (another logger was set to Debug) with the logger under test as the default logger; 12% carry an instant in the last half microsecond of its second. Round 14: 4% of the calls have a continuation line of 64 KiB or more with a marked line behind it; 5% run with a message column wider than 80. non-trivial = every judged call; distinct = by case index (PRNG stream)",
+			"Round 13: lines through a std log bridge on the logger (the empty line included); 12% of the calls run while the process-wide debug mode is on (another logger was set to Debug) with the logger under test as the default logger; 12% carry an instant in the last half microsecond of its second. Round 14: 4% of the calls have a continuation line of 64 KiB or more with a marked line behind it; 5% run with a message column wider than 80. Round 15: every third logger gets its error destinations (and sometimes a per-level one) before the normal one; half of the child loggers are fetched again by name with additive writer options. non-trivial = every judged call; distinct = by case index (PRNG stream)",
 		Assumptions: []string{"values whose own methods panic and cyclic values are not generated", "admission by the C01 rule, destination selection by the C03 model"},
 		Floors:      map[string]int64{"calls_admitted": 500, "calls_not_admitted_silent": 100, "records_delivered_whole": 500},
 		Jobs: func(tier string, seed int64) []Job {
@@ -160,7 +160,7 @@ func init() {
 			"mutex-protected recording writers with optional Gosched / sleep inside Write; every call carries its id in the message and in every attribute, plus a shared unsorted Group at the call site, a shared Group at logger level, a shared error value, " +
 			"a marshaller spy that records which pooled PrintCtx formatted it, and occasional 150-350 extra attributes (jump above the pooled size hint). Runs are executed twice: without and with the Go race detector (GORACE halt_on_error=0, reports parsed from the log files, deduplicated by the logg frames of the two stacks). " +
 			"side: the same oracles for 600-1500 calls next to (a) another logger whose destination keeps reporting errors, with caller information switched on, (b) a log/slog.Logger derived with .With(...) whose records mostly have no attributes of their own, (c) a process that changed its working directory and issues half of its records through reflection (caller frame inside the Go installation). " +
-			"Oracles: any DATA RACE report with a logg frame; every payload decodes to the complete record of exactly one call; multiset of delivered ids == multiset of issued ids per logger. Round 12: JSON loggers also get a shared Group and a shared Attrs list in VALUE position; a quarter of the loggers have io.Discard as their normal device while the error device or a per-level destination records; side/frontend starts with bases of 3, 5 and 7 derivation entries and compares the shared group value with what the application built; side/closed-elsewhere reads stdout and stderr back. Round 13: the failing destination of side/failing says EAGAIN / wrapped EINTR / a plain error; every stress call carries two uncomparable application attributes; calls whose only attribute is an instant called time; the shared frontend base has 1, 3, 5, 1, 7, 1 ... derivation entries and ends in the unsorted step. Round 14: 1% of the stress calls carry a 73 KiB attribute (one Write all the same); two side/failing cases have a closed *os.File in the failing logger's list. non-trivial = run with all records decoded; distinct = by run configuration side also has the scenario closed-elsewhere (loggers on the process's stdout while every goroutine makes, uses and closes request loggers of its own: every record arrives on stdout) and, in the failing scenario, a healthy destination behind the failing one that must get every record; a case whose calls do not return within 2 minutes ends the child and makes the run inconclusive.",
+			"Oracles: any DATA RACE report with a logg frame; every payload decodes to the complete record of exactly one call; multiset of delivered ids == multiset of issued ids per logger. Round 12: JSON loggers also get a shared Group and a shared Attrs list in VALUE position; a quarter of the loggers have io.Discard as their normal device while the error device or a per-level destination records; side/frontend starts with bases of 3, 5 and 7 derivation entries and compares the shared group value with what the application built; side/closed-elsewhere reads stdout and stderr back. Round 13: the failing destination of side/failing says EAGAIN / wrapped EINTR / a plain error; every stress call carries two uncomparable application attributes; calls whose only attribute is an instant called time; the shared frontend base has 1, 3, 5, 1, 7, 1 ... derivation entries and ends in the unsorted step. Round 14: 1% of the stress calls carry a 73 KiB attribute (one Write all the same); two side/failing cases have a closed *os.File in the failing logger's list. Round 15: nil contexts on loggers with context keys. non-trivial = run with all records decoded; distinct = by run configuration side also has the scenario closed-elsewhere (loggers on the process's stdout while every goroutine makes, uses and closes request loggers of its own: every record arrives on stdout) and, in the failing scenario, a healthy destination behind the failing one that must get every record; a case whose calls do not return within 2 minutes ends the child and makes the run inconclusive.",
 		Assumptions: []string{"the Go race detector reports only races on executions it sees (happens-before based, no false positives)", "concurrent reconfiguration of a logger is outside the claim and not generated"},
 		Floors:      map[string]int64{"records_decoded": 5000, "max:max_writes_in_flight": 2, "goroutine_switches_in_arrival_order": 100, "print_contexts_used_by_several_goroutines": 1, "side_records_decoded": 3000},
 		Jobs: func(tier string, seed int64) []Job {
@@ -287,7 +287,7 @@ func init() {
 		Level: "fault_enumeration",
 		Rule: "complete enumeration of {7 writer configurations: 1-3 normal, 1-3 error, 0-2 per-level writers, one with the same writer in both classes} x {logger level Always, Trace, Info, Error, Panic} x {all call sequences of length 1..n over 5 severity classes: normal, error-class, Warn, per-level, custom error device} x {ALL fail/succeed assignments to the first N write attempts (global order across the fault-injecting writers; a failing attempt reports the count 0, half of the payload, -1 or more than the payload, by attempt number; the error value rotates over 14 kinds incl. closed file/pipe, ENOSPC, wrapped ones, two whose dynamic type is not comparable and three that call themselves temporary (EAGAIN, EINTR))}; quick n=2,N=6 (57 600 cases), thorough n=3,N=10 (4 761 600 cases); every case runs on a detached logger AND on a child of a parent that admits everything and has a destination of its own, which must stay empty. " +
 			"After the faulted calls a healthy round issues every class again. Oracle per call over the attempt log: returns without panic; every selected destination is handed the complete record exactly once; diagnostics only at the warning destinations, at most one each, none for a Warn record / unfailed record / logger not admitting Warn; attempts <= |selected|+|warning destinations|; healthy round: normal delivery and no diagnostic, then one record one of whose values logs through another logger while it is being formatted (both records whole, once). " +
-			"defaultdev: 27 cases {stdout, stderr, both redirected onto /dev/full} x {logger never given writers, its child, the package-level functions} x {level Always, Error, Info}: seven calls of mixed severity must return while the process's own devices fail with ENOSPC, and arrive normally once the devices work again. devwriter: 12 cases {root, child, package functions} x {4 logger levels} in which the package's default device (GetDefaultWriter) is ONE of the logger's normal writers next to a recording one while stdout is /dev/full: the other writer gets each record once, at most one diagnostic goes to the logger's own warning destination, nothing reaches the process's stderr. After the faulted calls of every enum case a blank line (Println() / Print(\"\")) must arrive as one newline byte and draw no diagnostic. Round 14: an error with an empty text among the error kinds. non-trivial = case in which at least one Write of a record failed; distinct = by case index closedfile: files the application closed (a NewFileWriter log file, the standard-device wrappers after Close on what GetWriterBy hands out, a plain *os.File) stand in front of recording destinations; one kind has an alert destination that removes the failing one when it sees the diagnostic, one a per-level writer for Panic: returns normally, the recording destination gets the record once, at most one diagnostic and only at a warning destination. verbosebuild: 48 cases in a workload built with -tags verbose {logger, child installed as the default logger} x {3 formats} x {1-4 consecutive failing attempts of its first normal destination}, records through package-level functions: one attempt per record at the failing destination, the healthy one behind it holds the record once and nothing else, at most one diagnostic per failing record. addonly: 162 cases {1-3 added normal destinations} x {0-2 added error destinations} x {which added one fails} x {3 formats} x {root, child}, built with AddWriter / AddErrorWriter only so that the standard devices stay in their sets (stdout / stderr of the process are read back): every destination of the record's class is handed it once, reports about the failure go to warning destinations only. After every enum case the process-wide flags are what they were before it. fsizelimit: 24 cases in which a NewFileWriter log file hits the process's file size limit (RLIMIT_FSIZE, EFBIG) for one or two records and the limit is lifted again: the recording destination behind it holds every record once, the later records are in the file, nothing is reported once the file works again.",
+			"defaultdev: 27 cases {stdout, stderr, both redirected onto /dev/full} x {logger never given writers, its child, the package-level functions} x {level Always, Error, Info}: seven calls of mixed severity must return while the process's own devices fail with ENOSPC, and arrive normally once the devices work again. devwriter: 12 cases {root, child, package functions} x {4 logger levels} in which the package's default device (GetDefaultWriter) is ONE of the logger's normal writers next to a recording one while stdout is /dev/full: the other writer gets each record once, at most one diagnostic goes to the logger's own warning destination, nothing reaches the process's stderr. After the faulted calls of every enum case a blank line (Println() / Print(\"\")) must arrive as one newline byte and draw no diagnostic. Round 14: an error with an empty text among the error kinds. Round 15: a record above 64 KiB in the add-only cases (healthy destinations hold it to its end). non-trivial = case in which at least one Write of a record failed; distinct = by case index closedfile: files the application closed (a NewFileWriter log file, the standard-device wrappers after Close on what GetWriterBy hands out, a plain *os.File) stand in front of recording destinations; one kind has an alert destination that removes the failing one when it sees the diagnostic, one a per-level writer for Panic: returns normally, the recording destination gets the record once, at most one diagnostic and only at a warning destination. verbosebuild: 48 cases in a workload built with -tags verbose {logger, child installed as the default logger} x {3 formats} x {1-4 consecutive failing attempts of its first normal destination}, records through package-level functions: one attempt per record at the failing destination, the healthy one behind it holds the record once and nothing else, at most one diagnostic per failing record. addonly: 162 cases {1-3 added normal destinations} x {0-2 added error destinations} x {which added one fails} x {3 formats} x {root, child}, built with AddWriter / AddErrorWriter only so that the standard devices stay in their sets (stdout / stderr of the process are read back): every destination of the record's class is handed it once, reports about the failure go to warning destinations only. After every enum case the process-wide flags are what they were before it. fsizelimit: 24 cases in which a NewFileWriter log file hits the process's file size limit (RLIMIT_FSIZE, EFBIG) for one or two records and the limit is lifted again: the recording destination behind it holds every record once, the later records are in the file, nothing is reported once the file works again.",
 		Assumptions: []string{"a failed attempt counts as 'handed the record once' (the library does not retry)", "destination selection by the C03 model, admission by the C01 rule"},
 		Floors:      map[string]int64{"schedules": 1000, "calls_with_a_failing_write": 1000, "diagnostic_records_seen": 200, "verbose_build_records_judged": 100, "add_only_records_judged": 300, "file_size_limit_cases_judged": 12},
 		Variants:    []string{"verbose"},
@@ -347,7 +347,7 @@ func init() {
 		Rule: "handler: cases = (underlying logger held as Logger or *Entry, pre-set level, all 8 HandlerOptions boolean combinations x 6 Level values, derivation chain of 0-4 WithAttrs/WithGroup calls, log/slog record with explicit time, standard level, hostile message and 0-5 attributes of every log/slog kind: String/Int64/Uint64/Float64/Bool/Time/Duration/Any(error|struct|nil|int8|[]string)/LogValuer/Group nested <= 3); " +
 			"oracles: Handler.Enabled == logger gate (base and derived); Handle emits exactly one record at the logger's own destination (nothing on fds 1/2, which are redirected); the decoded record (C04/C05/C06 decoders) has the message, the record's own time, the namesake severity and the expected attribute tree (attributes given after WithGroup nested under it); a log/slog.Logger on the handler emits iff the logger admits. " +
 			"bridge: all (8 logger levels x 8 bridge severities) pairs x Print/Printf/Println/Output x hostile messages with 0-2 trailing newlines: one record iff the logger admits the severity, message == std-log line minus its trailing newline, level == bridge severity. " +
-			"conc: 2-16 goroutines log through ONE derived handler (WithAttrs/WithGroup chain of depth 1-3), with and without the race detector: every record carries its own attributes under the groups, none is lost. levelsweep: production child processes run Entry.Log for every log/slog level in -1100..1100 and 53 far values (incl. those equal to LevelFatal / LevelPanic modulo 2^8, 2^16, 2^32) (only LevelFatal / LevelPanic may terminate; the four standard levels are recorded under their namesakes). Round 12 (bridge): three registered severities of the application next to the built-in ones. Round 13 (grouphist): five records in a row through one derived handler whose With step holds a group, two of them carrying a group of the same name, two nothing: each carries the handler's attributes and its own (the later group stands in for the earlier one), nothing of an earlier record; 3 formats x 3 derivations. Round 14: two record keys that differ in letter case only; (JSON) a string value under the empty key. non-trivial = decoded and matched record / judged pair; distinct = by payload or pair",
+			"conc: 2-16 goroutines log through ONE derived handler (WithAttrs/WithGroup chain of depth 1-3), with and without the race detector: every record carries its own attributes under the groups, none is lost. levelsweep: production child processes run Entry.Log for every log/slog level in -1100..1100 and 53 far values (incl. those equal to LevelFatal / LevelPanic modulo 2^8, 2^16, 2^32) (only LevelFatal / LevelPanic may terminate; the four standard levels are recorded under their namesakes). Round 12 (bridge): three registered severities of the application next to the built-in ones. Round 13 (grouphist): five records in a row through one derived handler whose With step holds a group, two of them carrying a group of the same name, two nothing: each carries the handler's attributes and its own (the later group stands in for the earlier one), nothing of an earlier record; 3 formats x 3 derivations. Round 14: two record keys that differ in letter case only; (JSON) a string value under the empty key. Round 15 (grouphist): a record with complex values whose imaginary part is NaN, +Inf or -0, judged against what fmt prints. non-trivial = decoded and matched record / judged pair; distinct = by payload or pair",
 		Assumptions: []string{"attributes bound to the underlying logger itself are not generated (the statement does not say whether a handler shows them)", "an open group always receives at least one attribute (log/slog elides empty groups)"},
 		Floors:      map[string]int64{"records_decoded": 300, "derived_handler_records": 100, "enabled_compared": 1000, "bridge_calls": 500, "bridge_records_decoded": 100, "concurrent_handler_records": 5000, "levels_returned_normally": 79, "explicit_terminations_observed": 2},
 		Jobs: func(tier string, seed int64) []Job {
